@@ -180,6 +180,21 @@ CLAIMED['C10'] = dict(
          '(repair needs a growth-stable identity; not a small change).',
     ref='§4 C10')
 
+CLAIMED['C17'] = dict(
+    text='Decides with Z3 over the real MIR: C17.K2 op_import / op_import_symbol from an arbitrary module cache with the loader '
+         'summarised to its four outcomes: a cached module is neither loaded nor run again, a freshly compiled module is run as a '
+         'child fiber of the importer, which is rewound to retry exactly this instruction and pushes nothing before, a module is '
+         'entered into the cache only once loaded and under its fully resolved path, the symbol form pushes exactly the value the '
+         'export table holds under the requested name and answers non-exported names and missing modules with an import error, a '
+         'module that does not compile ends the program with a failing status; C17.K1 find_missing_module over an arbitrary module '
+         'tree (uninterpreted child relation) and any path of <= 3 (quick) / 4 segments descends exactly along the path and splits '
+         'it at the first missing segment. Found and fixed F10 (path[0] at every depth) and F20 (exit status 0). The export table / '
+         'module instance construction, module-scope slot declaration and once-only execution under concurrent importers are not '
+         'yet machine checked.',
+    note='Trusted: rustc MIR printer, mirsym, abstract identities for modules / strings (paths compare by identity: interning is '
+         'C09), laythe Map over the association-list hash map model, Z3. Assumes the working directory exists.',
+    ref='§4 C17')
+
 NOT_APPLICABLE = {
     'C08': 'global liveness of the fiber scheduler needs the running Vm (DESIGN.md §6); no bounded symbolic encoding of the real scheduler is within reach',
 }
